@@ -190,7 +190,7 @@ class TypeEnv:
 
     # ---- type strings ------------------------------------------------------
     def cap_for(self, elem):
-        key = getattr(elem, 'name', None) or repr(elem)
+        key = 'Vec' if isinstance(elem, TVec) else (getattr(elem, 'name', None) or repr(elem))
         return self.caps.get(key, self.default_cap)
 
     def parse(self, t, sub=None):
